@@ -38,13 +38,17 @@ def clause_open(prog, rep):
     opens = prog.all_calls(lambda c: c.name.startswith("open") and last_seg(c.self_adt) == "Connection" and (c.krate or "").startswith("rusqlite"), crates=SQ)
     rep.floor("single-open", "rusqlite::Connection::open* call sites", len(opens), 1)
     roots = sorted(set(prog.fns.get(c.fn.root, c.fn).label() for c in opens))
-    rep.check(len(opens) == 1, "single-open", "Connection::open", "the database is opened at exactly one place (%s)" % roots,
-              "the database is opened at %d places %s: every opener must apply the key first" % (len(opens), roots))
+    # (one opener on the pinned tree; a copy of it per constructor is the same thing as long as each copy keys the connection first)
+    unkeyed = [prog.fns.get(c.fn.root, c.fn).label() for c in opens
+               if not any(_applies_key(prog, t) for x in c.fn.live_calls() for t in prog.call_targets(x))]
+    rep.check(not unkeyed, "single-open", "Connection::open", "every place the database is opened at applies the key to the fresh connection (%s)" % roots,
+              "the database is also opened in %s, which never applies the key: every opener must apply the key first" % sorted(set(unkeyed)))
     for c in opens:
         f = c.fn
         # after the open: on the keyed side, a call that guarantees PRAGMA key ... validation dominates the escape of the connection
         enc = [x for x in f.live_calls() if any(_applies_key(prog, t) for t in prog.call_targets(x))]
-        rep.floor("key-first", "call applying the key after open", len(enc), 1)
+        if not enc:
+            continue     # reported above
         for x in enc:
             # the keying call is checked, and is the first thing done with the connection
             first = True
@@ -66,7 +70,8 @@ def clause_open(prog, rep):
             for w in cds:
                 l = A._opl(f.term(w)["discr"])
                 dep, _, _ = f.depends_on(l)
-                if any(1 <= p <= f.nargs and "EncryptionConfig" in f.locals[p] for p in dep):
+                # (a parameter of the opener; after the opener was folded into a constructor, the constructor's own Option<EncryptionConfig>)
+                if any("EncryptionConfig" in f.locals[p] and "Option" in f.locals[p] for p in dep):
                     dep_ok = True
             rep.check(dep_ok, "key-first", "open/keyed-iff-config", "the key is applied exactly when an EncryptionConfig is supplied",
                       "applying the key no longer depends on the supplied EncryptionConfig", x.loc())
@@ -303,13 +308,21 @@ def clause_keyring(prog, rep):
         rep.check(not dele.fn(f.path), "keyring", "%s/never-deletes-key" % f.name, "opening a database never deletes a keyring entry",
                   "constructor %s can delete the stored database key: a key already in use by an existing database is thrown away and regenerated" % f.name, f.loc())
     # only the unencrypted constructor passes None as key
+    # (which Option<EncryptionConfig> values reach the test that decides whether the fresh connection is keyed, and where they are built)
     none_callers = []
-    for f in prog.nontest_fns(SQ):
-        for c in f.live_calls():
-            if any(t.name in ("new_internal", "new_internal_skip_precreate") for t in prog.call_targets(c)) and len(c.args) >= 2 and "p" in c.args[-1]:
-                _, _, consts = f.depends_on(c.args[-1]["p"][0])
-                if any(isinstance(k, dict) and k.get("variant") == "None" for _, k in consts) and not any(isinstance(k, dict) and k.get("variant") == "Some" for _, k in consts):
-                    none_callers.append(f.name)
+    opens = prog.all_calls(lambda c: c.name.startswith("open") and last_seg(c.self_adt) == "Connection" and (c.krate or "").startswith("rusqlite"), crates=SQ)
+    for oc in opens:
+        f = oc.fn
+        for x in f.live_calls():
+            if not any(_applies_key(prog, t) for t in prog.call_targets(x)):
+                continue
+            for w in A.control_dependent_switches(f, x.bb):
+                dep, _, _ = f.depends_on(A._opl(f.term(w)["discr"]))
+                for l in sorted(dep):
+                    if "EncryptionConfig" in f.locals[l] and "Option" in f.locals[l]:
+                        for g, variant in _option_builders(prog, f, l):
+                            if variant == "None":
+                                none_callers.append(g.name)
     rep.check(sorted(set(none_callers)) == ["new_unencrypted"], "keyring", "none-key-only-unencrypted", "only new_unencrypted opens without a key",
               "constructors opening without a key: %s" % sorted(set(none_callers)))
     # new_with_key refuses an existing plain file
@@ -317,6 +330,41 @@ def clause_keyring(prog, rep):
         enc = [c for c in f.live_calls() if any(t.name == "is_database_encrypted" for t in prog.call_targets(c))]
         rep.check(bool(enc) and any(True for _ in f.aggregates("Error", "UnencryptedDatabaseWithEncryption")), "keyring", "with-key-refuses-plain",
                   "new_with_key checks the header of an existing file and refuses a plain database", "new_with_key no longer refuses an existing unencrypted file", f.loc())
+
+
+def _option_builders(prog, f, local, seen=None):
+    """(function, variant) for every place the Option value held by `local` is built (copies, `as_ref`, parameters followed to the callers)"""
+    seen = seen if seen is not None else set()
+    out = []
+    st = [local]
+    while st:
+        l = st.pop()
+        if (f.path, l) in seen:
+            continue
+        seen.add((f.path, l))
+        defs = f.defs().get(l, [])
+        for bb, kind, x in defs:
+            if kind == "stmt" and x.get("k") == "agg" and last_seg(x.get("adt")) == "Option" and len(x["d"]) == 1:
+                out.append((prog.fns.get(f.root, f), x.get("variant")))
+            elif kind == "stmt" and x.get("k") in ("use", "ref", "cast") and len(x["d"]) == 1 and x.get("o") and "p" in x["o"][0]:
+                st.append(x["o"][0]["p"][0])
+            elif kind == "stmt" and x.get("k") == "use" and x.get("o") and isinstance(x["o"][0].get("c"), dict) and x["o"][0]["c"].get("variant"):
+                out.append((prog.fns.get(f.root, f), x["o"][0]["c"]["variant"]))
+            elif kind == "call" and x.dst and x.dst[0] == l and x.name in ("as_ref", "clone", "as_mut", "take", "cloned", "copied") and x.args and "p" in x.args[0]:
+                st.append(x.args[0]["p"][0])
+        if 1 <= l <= f.nargs and not any(k2 == "stmt" for _, k2, _ in defs) and not f.is_closure():
+            for p in sorted(prog.redges().get(f.path, ())):
+                cf = prog.fns[p]
+                if cf.is_test_like() or cf.crate != f.crate:
+                    continue
+                for c in cf.live_calls():
+                    if any(t.path == f.path for t in prog.call_targets(c)) and l - 1 < len(c.args):
+                        a = c.args[l - 1]
+                        if "p" in a:
+                            out += _option_builders(prog, cf, a["p"][0], seen)
+                        elif isinstance(a.get("c"), dict) and a["c"].get("variant"):
+                            out.append((prog.fns.get(cf.root, cf), a["c"]["variant"]))
+    return out
 
 
 def clause_names(prog, rep):
